@@ -220,15 +220,32 @@ class Store:
             self.blobs.add(name)
         return bot.new_values(), before, expect
 
-    def load(self, t, run, i):
-        '''Dataset.load(); returns {(j,k): ('untouched'|content canon)}'''
+    def hold(self, t, run, i):
+        '''connect a Dataset and keep it (an algorithm may load more than
+        once through the dataset it was given); returns a handle'''
         alg = self.make_alg(i, None)
-        proto = {(j, k): alg.state_vectors()[j][vn]
-                 for j, s in enumerate(self.pool[i]['svs'])
-                 for k, vn in enumerate(s['vals'])}
         bot = self.make_bot(i, run, t, alg)
         with self.rig.worker_side():
             ds = self.db.connect(alg, bot, t)
+        return {'t': t, 'run': run, 'i': i, 'alg': alg, 'ds': ds,
+                'reopens': self.reopens,
+                'ver': {k: list(v) for k, v in self.ver.items()}}
+
+    def load(self, t, run, i, held=None):
+        '''Dataset.load(); returns {(j,k): ('untouched'|content canon)}'''
+        if held is not None:
+            t, run, i = held['t'], held['run'], held['i']
+            alg, ds = held['alg'], held['ds']
+        else:
+            alg = self.make_alg(i, None)
+            ds = None
+        proto = {(j, k): alg.state_vectors()[j][vn]
+                 for j, s in enumerate(self.pool[i]['svs'])
+                 for k, vn in enumerate(s['vals'])}
+        with self.rig.worker_side():
+            if ds is None:
+                bot = self.make_bot(i, run, t, alg)
+                ds = self.db.connect(alg, bot, t)
             ds.load()
         if t not in self.targets:
             self.targets.append(t)  # __to_key registers the target
@@ -246,9 +263,23 @@ class Store:
                 # the caller owns what it was given: an algorithm may refine
                 # a loaded value in place; no later load may see that
                 now.content = ['scribbled on by an earlier caller', t, run]
+                # Version.__setstate__ gives a loaded value the version of a
+                # freshly constructed instance of its class, i.e. the one the
+                # running code declares = the prototype's.  The harness
+                # classes take their version as a constructor argument, so
+                # that step is done here (matters when a kept dataset loads
+                # again through the same algorithm instance).
+                now._version_ = p._version_
         return got
 
-    def expect_load(self, t, run, i, j, k):
+    def expect_load(self, t, run, i, j, k, ver=None):
+        if ver is not None:
+            # identity as of the moment a held dataset was connected
+            now, self.ver = self.ver, ver
+            try:
+                return self.expect_load(t, run, i, j, k)
+            finally:
+                self.ver = now
         ident = self.ident(i, j, k)
         exact = self.model.get((run, t) + ident)
         if exact is not None:
